@@ -27,14 +27,21 @@ def ident(xs):
 # ================================================================================================
 # C15
 # ================================================================================================
+ALLGAP_P = 0.0
+
+
+def _mask(rng, n):
+    return [False] * n if rng.random() < ALLGAP_P else gen.rmask(rng, n)
+
+
 def _mk_item(rng, kind, n):
     w = {"emg": 1, "platData": 6}.get(kind)
     if kind == "platCal":
         it = {"label": gen.rlabel(rng), "size": [gen.rf32(rng), gen.rf32(rng)], "position": [gen.rf32(rng) for _ in range(12)]}
     elif kind == "emg":
-        it = {"label": rng.choice(["a", "b", "c", "dup", "dup", gen.rlabel(rng)]), "frames": gen.rframes(rng, gen.rmask(rng, n), w)}
+        it = {"label": rng.choice(["a", "b", "c", "dup", "dup", gen.rlabel(rng)]), "frames": gen.rframes(rng, _mask(rng, n), w)}
     else:
-        it = {"frames": gen.rframes(rng, gen.rmask(rng, n), w)}
+        it = {"frames": gen.rframes(rng, _mask(rng, n), w)}
     return lib.build_item(kind, it, {})
 
 
@@ -106,7 +113,7 @@ def c15_sequence(rec, rng, kind, start, length, case):
         if kind == "platCal":
             blk = tdfForcePlatformsCalibration.ForcePlatformsCalibrationDataBlock()
         if start != "empty":
-            chs = gen.rchannels(rng, k0)
+            chs = gen.rchannels(rng, k0, hi=20000)
             for c in chs:
                 it = _mk_item(rng, kind, n)
                 (blk.addSignal if kind == "emg" else blk.add_platform)(it, c)
@@ -153,7 +160,8 @@ def c15_sequence(rec, rng, kind, start, length, case):
         elif r < 0.55:  # add, explicit channel
             it = _mk_item(rng, kind, n)
             taken = bool(used) and rng.random() < 0.4
-            c = rng.choice(used) if taken else next(x for x in (rng.randint(0, 60) for _ in range(999)) if x not in used)
+            hi = 65000 if (kind == "platData" and rng.random() < 0.3) else 60   # unsigned 16-bit field for platform data
+            c = rng.choice(used) if taken else next(x for x in (rng.randint(0, hi) for _ in range(999)) if x not in used)
             steps.append(f"add(ch={c}{' taken' if taken else ''})")
             try:
                 (blk.addSignal if kind == "emg" else blk.add_platform)(it, c)
@@ -189,9 +197,11 @@ def c15_sequence(rec, rng, kind, start, length, case):
                 how = rng.choice(["index", "item", "bulk", "bad-index", "foreign-item"])
                 rec.count("oracle:C15.remove")
                 if how == "index":
-                    i = rng.randrange(len(shadow)); steps.append(f"remove_platform({i})")
+                    i = rng.randrange(len(shadow))
+                    arg = i - len(shadow) if rng.random() < 0.3 else i     # negative indices count from the end
+                    steps.append(f"remove_platform({arg})")
                     try:
-                        blk.remove_platform(i)
+                        blk.remove_platform(arg)
                     except Exception as e:
                         V("remove-by-index:refused", f"{type(e).__name__}: {e}"); return
                     shadow.pop(i)
@@ -261,7 +271,7 @@ def c15_sequence(rec, rng, kind, start, length, case):
                 shadow = list(zip(ch, items))
                 continue
             elif kind == "platCal":
-                chs = gen.rchannels(rng, k)
+                chs = gen.rchannels(rng, k, hi=20000)
                 bad_at = rng.randrange(k) if rng.random() < 0.3 and k > 1 else None
                 pairs = [(c, it) for c, it in zip(chs, its)]
                 if bad_at is not None and bad_at > 0:
@@ -285,11 +295,17 @@ def c15_sequence(rec, rng, kind, start, length, case):
                 shadow = list(zip(ch, items))  # after a refused assignment only the invariants are demanded
                 continue
             else:  # platData: platforms = [...]
-                steps.append(f"platforms=<{k} items>")
+                if rng.random() < 0.3:   # a list that will be refused part-way (an object that is not a platform)
+                    its = list(its)
+                    its.insert(rng.randint(1, len(its)), rng.choice([None, "platform", 7]))
+                    steps.append(f"platforms=<{k} items + a non-platform>")
+                else:
+                    steps.append(f"platforms=<{k} items>")
                 try:
                     blk.platforms = its
                 except Exception as e:
                     err = e
+                its = [x for x in its if isinstance(x, tdfForcePlatformsData.ForcePlatformData)]
                 ch, items, oerr = observed_pairs(kind, blk)
                 rec.count("oracle:C15.bulk-assignment")
                 if oerr:
@@ -302,6 +318,8 @@ def c15_sequence(rec, rng, kind, start, length, case):
                         V("bulk-assign:surviving-item-changed-channel", f"{old[id(it)]} -> {c}"); return
                 if err is None and not all(any(it is x for x in items) for it in its):
                     V("bulk-assign:items-missing", "assigned items are not all in the block"); return
+                if kind == "platData":
+                    pass
                 shadow = list(zip(ch, items))
                 continue
         else:  # encode -> decode -> continue on the decoded block
@@ -350,12 +368,29 @@ def shard_c15(desc, rec):
 # ================================================================================================
 def _track(rng, kind, n):
     w = {"data3D": 3, "emg": 1, "force3D": 9}[kind]
-    return lib.build_item(kind, {"label": gen.rlabel(rng), "frames": gen.rframes(rng, gen.rmask(rng, n), w)}, {})
+    return lib.build_item(kind, {"label": gen.rlabel(rng), "frames": gen.rframes(rng, _mask(rng, n), w)}, {})
+
+
+class _Boom(Exception):
+    pass
+
+
+def _malformed(kind):
+    """a track object of the right class whose frame count cannot even be asked (its data is a plain list)"""
+    if kind == "data3D":
+        return tdfData3D.MarkerTrack("malformed", [[1.0, 2.0, 3.0]])
+    if kind == "emg":
+        return tdfEMG.EMGTrack("malformed", [1.0, 2.0])
+    t = tdfForce3D.ForceTorqueTrack("malformed", np.zeros((1, 3)), np.zeros((1, 3)), np.zeros((1, 3)))
+    t.application_point = [[0.0, 0.0, 0.0]]
+    return t
 
 
 def _bad(rng, kind, n):
     """(object, why) that must be refused"""
     r = rng.random()
+    if r < 0.08:
+        return _malformed(kind), "malformed-track"
     if r < 0.45:
         m = n
         while m == n:
@@ -414,10 +449,9 @@ def c16_sequence(rec, rng, kind, length, case):
     for _ in range(length):
         r = rng.random()
         chan = {}
-        if kind == "emg" and rng.random() < 0.5:   # explicit, unused acquisition channel
-            chan = {"channel": 1000 + rng.randint(0, 30000)}
-            while chan["channel"] in used_channels:
-                chan["channel"] += 1
+        if kind == "emg" and rng.random() < 0.5:   # explicit, unused acquisition channel: strictly decreasing from
+            # 30000, so it can never meet an automatically assigned one (those are max+1)
+            chan = {"channel": 30000 - len(used_channels)}
         if r < 0.3:
             t = _track(rng, kind, n); steps.append(f"add(valid{', channel' if chan else ''})")
             try:
@@ -435,6 +469,26 @@ def c16_sequence(rec, rng, kind, length, case):
                 V(f"add:{why.split('(')[0]}:accepted", f"{why} was accepted{' (explicit channel)' if chan else ''}"); return
             except Exception:
                 pass
+        elif kind != "emg" and r < 0.66 and shadow:
+            # a list of *other objects with equal content* (copies): the assignment installs exactly those objects
+            import copy as _copy
+            want = [_copy.deepcopy(t_) for t_ in blk.tracks]
+            if rng.random() < 0.5 and want:      # ... or copies that are equal only within a float tolerance / up to -0.0
+                t0 = want[rng.randrange(len(want))]
+                arr0 = t0.data if kind == "data3D" else t0.force
+                if arr0.size and arr0.flags.writeable:
+                    v0 = arr0.flat[0]
+                    arr0.flat[0] = -0.0 if v0 == 0 else v0 * (1 + 1e-7)
+            steps.append("tracks=<equal copies of own tracks>")
+            try:
+                blk.tracks = want
+            except Exception as e:
+                V("assign:valid-list-refused", f"equal copies: {type(e).__name__}: {e}"); return
+            cur, oerr = observe_tracks(kind, blk)
+            rec.count("oracle:C16.assignment-of-equal-copies")
+            if ident(cur) != ident(want):
+                V("assign:installed-list-differs", "a list of equal-content copies was assigned but the block still holds the old objects"); return
+            shadow = list(want)
         elif kind != "emg" and r < 0.72 and shadow:
             # the assigned iterable is derived lazily from the block's own list
             how = rng.choice(["same-list", "reversed", "generator-filter", "slice-view"])
@@ -465,11 +519,37 @@ def c16_sequence(rec, rng, kind, length, case):
             if rng.random() < 0.55 and k > 0:
                 bad_at = rng.randrange(k)
                 lst[bad_at], why = _bad(rng, kind, n)
+                if n > 1 and shadow and len(lst) == len(shadow) and rng.random() < 0.3:
+                    # same labels as the current tracks, one element a 1-frame track that equals (by broadcasting,
+                    # within tolerance) a constant current track: still a wrong-length track
+                    import copy as _copy
+                    lst = [_copy.deepcopy(t_) for t_ in shadow]
+                    w = {"data3D": 3, "force3D": 9}[kind]
+                    const = lib.build_item(kind, {"label": shadow[bad_at].label, "frames": [[1.5] * w] * n}, {})
+                    shadow[bad_at] = const
+                    blk.tracks = list(shadow)
+                    lst = [_copy.deepcopy(t_) for t_ in shadow]
+                    lst[bad_at] = lib.build_item(kind, {"label": const.label, "frames": [[1.5] * w]}, {})
             as_gen = rng.random() < 0.3
-            steps.append(f"tracks=<{k} items{', bad at %d' % bad_at if bad_at is not None else ''}{', generator' if as_gen else ''}>")
+            raising_gen = bad_at is None and k > 0 and rng.random() < 0.15
+            if raising_gen:            # the iterable itself fails part-way with an arbitrary exception
+                cut = rng.randrange(k)
+                exc = rng.choice([_Boom, KeyError, RuntimeError, AttributeError, StopAsyncIteration])
+
+                def genr(lst=lst, cut=cut, exc=exc):
+                    for q, x in enumerate(lst):
+                        if q == cut:
+                            raise exc("iterable failed")
+                        yield x
+                bad_at = cut
+            steps.append(f"tracks=<{k} items{', bad at %d' % bad_at if bad_at is not None else ''}{', generator' if as_gen else ''}"
+                         f"{', raising iterable' if raising_gen else ''}>")
             err = None
             try:
-                blk.tracks = (x for x in lst) if as_gen else (lst if rng.random() < 0.5 else tuple(lst))
+                if raising_gen:
+                    blk.tracks = genr()
+                else:
+                    blk.tracks = (x for x in lst) if as_gen else (lst if rng.random() < 0.5 else tuple(lst))
             except Exception as e:
                 err = e
             cur, oerr = observe_tracks(kind, blk)
@@ -710,6 +790,8 @@ def _fresh(kind, rng, with_items):
     b = cls(100, n, np.ones(3, np.float32), np.eye(3, dtype=np.float32), np.zeros(3, np.float32))
     if with_items:
         b.add_track(_track(rng, kind, n))
+        if kind == "data3D" and rng.random() < 0.5:   # a link table (public attribute of 3D blocks)
+            b.links = np.array([(0, 1), (1, 2)][: rng.randint(1, 2)], dtype=lib.LINK_DT)
     return b
 
 
@@ -725,15 +807,30 @@ def _items(kind, b):
     return list(b)
 
 
+def _raw_values(kind, it):
+    """every sample an item exposes through its public attributes, as bytes (also frames that are not encoded)"""
+    names = {"data3D": ["data"], "emg": ["data"], "force3D": ["application_point", "force", "torque"],
+             "platData": ["application_point", "force", "torque"], "platCal": ["size", "position"],
+             "events": ["values"]}.get(kind, [])
+    out = []
+    for n_ in names:
+        try:
+            out.append(np.asarray(getattr(it, n_)).tobytes())
+        except Exception:
+            out.append(b"?")
+    return out
+
+
 def _snapshot(kind, b):
-    return (ident(_items(kind, b)), lib.enc(b), len(_items(kind, b)))
+    its = _items(kind, b)
+    return (ident(its), lib.enc(b), len(its), [_raw_values(kind, it) for it in its])
 
 
 def _mutate(kind, b, rng):
     """one public mutation of b; returns a description"""
     its = _items(kind, b)
     r = rng.random()
-    if r < 0.5 or not its:
+    if r < 0.4 or not its:
         if kind == "optical":
             b.channels.append(lib.build_item("optical", {"index": 1, "lens": "L", "type": "T", "name": "N", "vp": [1, 2, 3, 4]}, {}))
         elif kind == "events":
@@ -748,7 +845,7 @@ def _mutate(kind, b, rng):
         else:
             b.add_track(_track(rng, kind, 3))
         return "append-item"
-    if r < 0.7:
+    if r < 0.55:
         it = rng.choice(its)
         if kind == "optical":
             it.camera_name = "renamed"
@@ -757,7 +854,7 @@ def _mutate(kind, b, rng):
         else:
             it.torque = np.array(it.torque, dtype=np.float32) + 1
         return "edit-item-field"
-    if r < 0.85:
+    if r < 0.7:
         if kind == "optical":
             b.channels.pop()
         elif kind == "events":
@@ -770,8 +867,10 @@ def _mutate(kind, b, rng):
             return _mutate(kind, b, random.Random(rng.random() * 1e9 // 1))
         return "remove-item"
     it = rng.choice(its)
-    arr = {"data3D": lambda: it.data, "emg": lambda: it.data, "force3D": lambda: it.force,
-           "platData": lambda: it.force, "platCal": lambda: it.position, "events": lambda: it.values}.get(kind)
+    arr = {"data3D": lambda: it.data, "emg": lambda: it.data,
+           "force3D": lambda: rng.choice([it.application_point, it.force, it.torque]),
+           "platData": lambda: rng.choice([it.application_point, it.force, it.torque]),
+           "platCal": lambda: it.position, "events": lambda: it.values}.get(kind)
     if arr is not None:
         a = arr()
         if isinstance(a, np.ndarray) and a.flags.writeable and a.size:
@@ -781,6 +880,8 @@ def _mutate(kind, b, rng):
 
 
 def shard_c20(desc, rec):
+    global ALLGAP_P
+    ALLGAP_P = 0.3     # wholly-missing tracks / platforms are where decoders are tempted to share a NaN template
     rng = random.Random(desc["seed"] * 89 + desc.get("shard", 0))
     kinds = ["data3D", "force3D", "emg", "events", "platCal", "platData", "optical"]
     for i in range(desc["n"]):
@@ -797,20 +898,33 @@ def shard_c20(desc, rec):
         ok = True
         for _ in range(rng.randint(10, 40)):
             r = rng.random()
+            before = [(b, _snapshot(kind, b)) for b in pool]
+            touched = None          # the one instance this step is allowed to change
+            what = "?"
             if r < 0.25 or len(pool) < 2:
                 wi = rng.random() < 0.5
-                steps.append("construct" + ("(items)" if wi else "()"))
+                what = "construct" + ("(items)" if wi else "()")
+                steps.append(what)
                 b = _fresh(kind, rng, wi)
                 rec.count("oracle:C20.fresh-instance-empty")
                 if not wi and len(_items(kind, b)) != 0:
                     V("fresh-instance-not-empty", f"a block constructed without items holds {len(_items(kind, b))}"); ok = False; break
+                if not wi:
+                    try:
+                        x_empty = lib.enc(b)
+                        b_ref, _ = lib.dec(kind, lib.fmt_of(b), x_empty)
+                        if len(_items(kind, b_ref)) != 0 or (kind == "data3D" and len(getattr(b, "links", [])) != 0):
+                            V("fresh-instance-not-empty", "a block constructed without items encodes items / links of earlier instances"); ok = False; break
+                    except Exception:
+                        pass
                 pool.append(b)
                 if len(pool) > 4:
                     pool.pop(0)
             elif r < 0.4:
                 src = rng.choice(pool)
                 x = lib.enc(src)
-                steps.append("decode-twice")
+                what = "decode-twice"
+                steps.append(what)
                 d1, _ = lib.dec(kind, lib.fmt_of(src), x)
                 d2, _ = lib.dec(kind, lib.fmt_of(src), x)
                 rec.count("oracle:C20.two-decodes-are-two-objects")
@@ -823,7 +937,9 @@ def shard_c20(desc, rec):
                 a_, b_ = rng.sample(range(len(pool)), 2)
                 if pool[a_] is pool[b_]:
                     continue
-                steps.append(f"#{b_}.tracks = #{a_}.tracks")
+                what = f"#{b_}.tracks = #{a_}.tracks"
+                steps.append(what)
+                touched = pool[b_]
                 try:
                     pool[b_].tracks = pool[a_].tracks
                 except Exception as e:
@@ -832,30 +948,31 @@ def shard_c20(desc, rec):
                 j = rng.randrange(len(pool))
                 if any(b is pool[j] for k, b in enumerate(pool) if k != j):
                     V("two-instances-are-one-object", "two separately obtained instances are the same object"); ok = False; break
-                others = [(k, _snapshot(kind, b)) for k, b in enumerate(pool) if k != j]
+                touched = pool[j]
                 try:
                     what = _mutate(kind, pool[j], rng)
                 except Exception as e:
                     steps.append(f"mutate#{j}:raised {type(e).__name__}")
                     continue
                 steps.append(f"mutate#{j}:{what}")
-                rec.count("oracle:C20.others-unchanged")
-                mine = set(ident(_items(kind, pool[j])))
-                for k, snap in others:
-                    now = _snapshot(kind, pool[k])
-                    if what in ("edit-item-field", "edit-sample-in-place") and mine & set(snap[0]):
-                        rec.count("c20:item-edit-on-deliberately-shared-item(not judged)")
-                        continue   # the harness itself put the same item objects into both blocks
-                    if now != snap:
-                        whatc = "items" if now[0] != snap[0] else "encoding"
-                        V("mutation-leaks-into-other-instance",
-                          f"{what} on instance #{j} changed the {whatc} of instance #{k} ({snap[2]} -> {now[2]} items)")
-                        ok = False
-                        break
-                if not ok:
+            # frame condition: whatever the step was, no instance other than `touched` may have changed
+            rec.count("oracle:C20.others-unchanged")
+            mine = set(ident(_items(kind, touched))) if touched is not None else set()
+            for b, snap in before:
+                if b is touched or not any(b is p_ for p_ in pool):
+                    continue
+                now = _snapshot(kind, b)
+                if what in ("edit-item-field", "edit-sample-in-place") and mine & set(snap[0]):
+                    rec.count("c20:item-edit-on-deliberately-shared-item(not judged)")
+                    continue   # the harness itself put the same item objects into both blocks
+                if now != snap:
+                    whatc = "items" if now[0] != snap[0] else ("encoding" if now[1] != snap[1] else "sample values")
+                    V("mutation-leaks-into-other-instance" if touched is not None else "construction-or-decoding-changes-existing-instance",
+                      f"step '{what}' changed the {whatc} of another live instance ({snap[2]} -> {now[2]} items)")
+                    ok = False
                     break
-        if not ok:
-            continue
+            if not ok:
+                break
 
 
 SHARDS = {"c15": shard_c15, "c16": shard_c16, "c18": shard_c18, "c20": shard_c20}
